@@ -64,11 +64,15 @@ pub struct SchedCfg {
     /// bit i enables buggify site i (see world::BUGGIFY_SITES)
     pub buggify_mask: u32,
     pub channel_cap: usize,
+    /// blocking closures run on threads of their own and may be interleaved with other tasks at each
+    /// of their file operations (as on a real blocking pool); false = a closure runs atomically
+    #[serde(default)]
+    pub preempt_jobs: bool,
 }
 
 impl Default for SchedCfg {
     fn default() -> Self {
-        SchedCfg { seed: 0, latency: Latency::Zero, inplace_small: false, buggify_mask: 0, channel_cap: 1024 }
+        SchedCfg { seed: 0, latency: Latency::Zero, inplace_small: false, buggify_mask: 0, channel_cap: 1024, preempt_jobs: false }
     }
 }
 
@@ -113,6 +117,11 @@ pub enum OpKind {
     /// keep writing (one record every `gap_ms`) until the active blob has been switched or
     /// `max_writes` writes were made; liveness probe for rotation
     OverflowProbe { max_writes: u32, gap_ms: u64 },
+    /// under the open storage: for each of up to `max_positions` byte positions of region `class` of
+    /// one stored record, flip a burst, compare every query, restore the bytes
+    FlipSweep { blob: usize, rec: usize, class: ByteClass, max_positions: u32 },
+    /// full comparison of every query with the model now (profiles without per-step checks)
+    CheckNow,
     /// every closed blob that holds records must have an up-to-date index file by now
     CheckDumped,
     /// poll the operation `k` times, then drop its future (cancellation)
